@@ -674,6 +674,18 @@ func init() {
 				}
 			}
 		}
+		// blanks around the ':' of a qualified reference, at the very start of the text and elsewhere (input "clean-ups" that
+		// take `Word: ` at the start for a field tag)
+		for _, d := range []string{"ext", "d", "spdx-tool-1.2", "License", "SPDX-License-Identifier", "a.b"} {
+			for _, ctx := range []string{"DocumentRef-%s: LicenseRef-foo", "DocumentRef-%s :LicenseRef-foo", "DocumentRef-%s : LicenseRef-foo OR MIT", "DocumentRef-%s: LicenseRef-foo AND MIT",
+				" DocumentRef-%s: LicenseRef-foo", "(DocumentRef-%s: LicenseRef-foo)", "MIT OR DocumentRef-%s: LicenseRef-foo", "DocumentRef-%s:  LicenseRef-foo", "%s: MIT", "LicenseRef-%s: MIT"} {
+				text := fmt.Sprintf(ctx, d)
+				x := implExt(text)
+				res.Evaluations++
+				count("colon_spacing")
+				correspondNorm("E "+hx(text), x.String(), "extracted terms with blanks around the ':' of a qualified reference: model vs implementation", &kase{Expr: text, ExprHex: hx(text)}, extractSetNorm)
+			}
+		}
 		// spelling experiments that do NOT pass through the implementation's own validity filter: every special id and every
 		// unlisted base with every suffix, in three contexts; the extracted set (or the error) must be the model's
 		{
@@ -1425,6 +1437,36 @@ func init() {
 					}
 					if r.panicv != nil || r.err != nil || r.ok != want {
 						fail(failure{Stream: "oracle", What: "Satisfies('(E) " + op + " (F)', A) differs from combining Satisfies(E, A) and Satisfies(F, A) (E and F have the same leaves in another nesting)", Case: &kase{Expr: text, ExprHex: hx(text), Allowed: a, Extra: map[string]string{"E": te, "F": tf}}, Impl: r.String(), Expected: fmt.Sprint(want)})
+					}
+				}
+			}
+		}
+		// members of families that are ADJACENT in the version table, in one expression (positions packed into too few bits
+		// carry from a long family into the next one): the composition law over such pairs
+		for fi := 0; fi+1 < len(tblRanges); fi++ {
+			var as, bs []string
+			for _, g := range tblRanges[fi] {
+				as = append(as, g[0])
+			}
+			for _, g := range tblRanges[fi+1] {
+				bs = append(bs, g[0])
+			}
+			n := 0
+			for _, a := range as {
+				for _, b := range bs {
+					if n >= scale(24, 200) {
+						break
+					}
+					a, b = strings.TrimSuffix(a, "+"), strings.TrimSuffix(b, "+")
+					if !implValid(a) || !implValid(b) {
+						continue
+					}
+					n++
+					res.Evaluations++
+					count("adjacent_families_composition")
+					ct := []*term{{text: a, caseMod: -1}, {text: b, caseMod: -1}}
+					if f := c10Compose(ct); f != nil {
+						fail(*f)
 					}
 				}
 			}
